@@ -379,6 +379,7 @@ impl Engine for C08 {
             Phase::new("programs with <= 1 declaration", json!({"k":1,"full":true})),
             Phase::new("programs with 2 declarations (reduced body menu)", json!({"k":2,"full":false})),
         ];
+        v.push(Phase::new("module fragments: imports, qualifiers, sub-directories, relative spellings (F8), scoping (F5)", json!({"frags":[7,4]})));
         if tier == Tier::Thorough {
             v.push(Phase::new("programs with 2 declarations (full body menu)", json!({"k":2,"full":true})));
             v.push(Phase::new("programs with 3 declarations (small menu: 4 heads x 10 bodies)", json!({"k":3,"full":false,"small":true})));
@@ -386,6 +387,21 @@ impl Engine for C08 {
         v
     }
     fn run_phase(&self, phase: &Phase, sink: &mut Sink) {
+        if let Some(fs) = phase.param["frags"].as_array() {
+            let mut idx = 0u64;
+            for f in fs {
+                for p in crate::frags::fragment(f.as_u64().unwrap() as usize, false).programs.iter() {
+                    if sink.mine(idx) {
+                        if sink.expired() {
+                            return;
+                        }
+                        sink.visit(idx, || c02::program_json(p, &print(p).texts), |_| judge(p));
+                    }
+                    idx += 1;
+                }
+            }
+            return;
+        }
         let k = phase.param["k"].as_u64().unwrap() as usize;
         let full = phase.param["full"].as_bool().unwrap();
         let space = if phase.param["small"].as_bool().unwrap_or(false) { Space::small(k) } else { Space::new(k, full) };
